@@ -6,3 +6,4 @@ CONSTANTS
   SchemaLossy = FALSE
   WithFail = TRUE
   Salts = {1}
+  Pres = {"none", "hop"}
